@@ -88,3 +88,41 @@ var props = map[string]*propSpec{
 			map[string]int64{"files_compared": 5000, "footers_checked": 5000}),
 	},
 }
+
+func init() {
+	props["C05"] = &propSpec{
+		Level:       "exploration",
+		Rule:        "seeded merge plans: 2-4 leaf batches (in memory or persisted+re-opened) and 1-3 merges of 1-4 inputs (leaves or earlier outputs), per-input deletion style {nil, empty bitmap, random, all-but-one, sparse, full}, output chunk mode possibly different from the inputs'; plan classes forced every run: identical field lists without drops (byte-copy path), identical with drops, different field lists, empty inputs, nothing survives, chains, tall inputs, single input, update-like; oracle: renumbering maps, Count, reported size vs stat, footer/CRC, stored fields, DocID, DocNumbers, Fields of the re-opened output against model-merge; distinct = (leaf fingerprints, mode, steps); non-trivial = an output with >= 2 survivors",
+		Assumptions: commonAssumptions,
+		Runs:        simple("C05", "plain"),
+		Min: mins(map[string]int64{"merges": 300, "merge_inputs_bytecopy_path": 40, "merge_inputs_reencode_path": 200, "merges_nothing_survives": 20, "merges_depth_2": 30},
+			map[string]int64{"merges": 4000, "merge_inputs_bytecopy_path": 500, "merge_inputs_reencode_path": 2500, "merges_nothing_survives": 250, "merges_depth_2": 400}),
+	}
+	props["C06"] = &propSpec{
+		Level:       "exploration",
+		Rule:        "the merge plans of C05 (all plan classes, doc-value chunk sizes {1024,2,5,1,3}); oracle on every merge output: every (field,term) posting with freq/norm/locations, dictionary iteration with counts, doc values under all visit disciplines (one state shared between the output and an input), terms without survivors absent; distinct = (leaf fingerprints, mode, steps); non-trivial = an output with >= 2 survivors",
+		Assumptions: commonAssumptions,
+		Runs:        simple("C06", "plain"),
+		Min: mins(map[string]int64{"merges": 300, "terms_in_2plus_inputs": 1000, "onehit_terms_produced": 500, "onehit_terms_read_from_merged_inputs": 100, "merge_inputs_bytecopy_path": 40, "merge_inputs_reencode_path": 200},
+			map[string]int64{"merges": 4000, "terms_in_2plus_inputs": 15000, "onehit_terms_produced": 8000, "onehit_terms_read_from_merged_inputs": 1500, "merge_inputs_bytecopy_path": 500, "merge_inputs_reencode_path": 2500}),
+	}
+	props["C13"] = &propSpec{
+		Level:       "exploration",
+		Rule:        "the merge plans of C05 over batches with synonym documents (1-3 thesauri, explicit and equivalence definitions, shared synonyms, empty left-hand term); oracle on every merge output: thesaurus term lists, (synonym, document) pair sets under exclusion bitmaps {nil, empty, each defining doc, all}, Contains, unknown names/terms; classes counted: thesaurus in >= 2 inputs, in some inputs only, all definitions deleted, merged-of-merged",
+		Assumptions: commonAssumptions,
+		Runs:        simple("C13", "plain"),
+		Min: mins(map[string]int64{"merges": 300, "syn_pairs_compared": 5000, "thesauri_from_2plus_inputs": 100, "thesauri_in_some_inputs_only": 50, "thesauri_all_definitions_deleted": 10, "thesauri_merged_of_merged": 20},
+			map[string]int64{"merges": 4000, "syn_pairs_compared": 80000, "thesauri_from_2plus_inputs": 1500, "thesauri_in_some_inputs_only": 700, "thesauri_all_definitions_deleted": 150, "thesauri_merged_of_merged": 300}),
+	}
+}
+
+func init() {
+	props["C08"] = &propSpec{
+		Level:       "exploration",
+		Rule:        "seeded batch pairs x chunk modes x provenance {built, re-opened, merged once, merged twice (alone or with a leaf)}; for every field (and an unknown one): Cardinality, Contains of every term, and AutomatonIterator for automata {nil=all, never, exact, prefix, vellum regexp, vellum levenshtein d=1,2} x key ranges with each bound in {nil, below min, existing term, between terms, above max}, start < end; acceptance decided by stepping the automaton over the term bytes in the harness; every entry's Count compared with the model's postings size; distinct = (batch fingerprints, mode); non-trivial = >= 2 documents and a multi-document term",
+		Assumptions: append([]string{"key-range bounds are nil or non-empty (an empty non-nil bound is outside the domain: bleve passes nil for 'absent')"}, commonAssumptions...),
+		Runs:        simple("C08", "plain"),
+		Min: mins(map[string]int64{"dict_entries_checked": 100000, "dict_general_after_single": 2000, "dict_provenance_merged_twice": 100},
+			map[string]int64{"dict_entries_checked": 1500000, "dict_general_after_single": 30000, "dict_provenance_merged_twice": 1500}),
+	}
+}
